@@ -948,6 +948,29 @@ class ArrRes(Res):
         return [ra(self.t, [(10 + k) if self.t.cls == "int" else float(10 + k) for k in range(n)])]
 
 
+class ArrRes2(ArrRes):
+    """T *f(int n) +dimension(n,2) [+deref(allocatable)] : library-owned rank-2 array, 2n elements in column-major order"""
+
+    py = False
+    lua = False
+
+    def __init__(self, t, deref=None):
+        ArrRes.__init__(self, t, deref)
+        self.id = "ret_arr2_%s%s" % (t.id, "_" + deref if deref else "")
+        self.attrs = " +dimension(n,2)" + (" +deref(%s)" % deref if deref else "")
+
+    def statics(self, lang):
+        return ["static %s vt_static_%s[16];" % (self.t.cname, self.id)]
+
+    def ret(self, lang):
+        return ["{ int vt_k; for (vt_k = 0; vt_k < 2 * n && vt_k < 16; vt_k++) vt_static_%s[vt_k] = (%s)(10 + vt_k); }" % (self.id, self.t.cname),
+                "return vt_static_%s;" % self.id]
+
+    def observe(self, extra=None):
+        n = extra
+        return [rnd(NATIVE["int"], n), rnd(NATIVE["int"], 2), ra(self.t, [(10 + k) if self.t.cls == "int" else float(10 + k) for k in range(2 * n)])]
+
+
 class VecRes(Res):
     langs = ("cxx",)
 
@@ -1238,6 +1261,6 @@ def core_results(level=1):
     R += [CStrRes("hey you"), CStrRes(""), CStrRes("hey you", 10), CStrRes("hey you", 3)]
     R += [StrRes("val", "result"), StrRes("val", ""), StrRes("cref", "refres"), StrRes("cptr_caller", "owned"), StrRes("cptr_library", "lib")]
     for t in ("int", "double"):
-        R += [PtrRes(T[t]), PtrRes(T[t], ref=True), ArrRes(T[t]), ArrRes(T[t], "allocatable"), VecRes(T[t])]
+        R += [PtrRes(T[t]), PtrRes(T[t], ref=True), ArrRes(T[t]), ArrRes(T[t], "allocatable"), VecRes(T[t]), ArrRes2(T[t]), ArrRes2(T[t], "allocatable")]
     R += [EnumRes(), StructRes("val"), StructRes("ptr")]
     return R
